@@ -153,12 +153,24 @@ def execute(ctx, case):
     sw, rsw = fs.swap(), ref.swap()
     C(sw == rsw, "swap differs from the equivalent Scores", "fraud-swap")
     # from_labels with an arbitrary genuine label
-    for glab, other in ((1, 0), ("ok", "bad"), (7, 3)):
+    # (any label type: ints either way round, strings, booleans either way round - an is_fraud column has genuine_label=False -, floats)
+    for glab, other in ((1, 0), ("ok", "bad"), (7, 3), (0, 1), (False, True), (True, False), (0.0, 1.0), ("", "fraud")):
         labels = np.array([glab] * len(g) + [other] * len(f), dtype=object if isinstance(glab, str) else None)
         sc_all = np.concatenate([np.asarray(g, float), np.asarray(f, float)])
         perm = rng.permutation(len(sc_all))
-        fl = FraudScores.from_labels(labels[perm] if len(perm) else labels, sc_all[perm] if len(perm) else sc_all, genuine_label=glab, nb_easy_genuines=ep, nb_easy_frauds=en, score_class=scl)
-        C(fl == ref and isinstance(fl, FraudScores), "from_labels does not split by the genuine label", "fraud-from-labels", genuine_label=str(glab))
+        lab_in = labels[perm] if len(perm) else labels
+        if (case.get("_seed", 0) + len(str(glab))) % 3 == 0:
+            lab_in = lab_in.tolist()  # a plain list of labels
+        kw_l = dict(genuine_label=glab, nb_easy_genuines=ep, nb_easy_frauds=en, score_class=scl)
+        if glab == 1 and type(glab) is int and case.get("_seed", 0) % 2:
+            del kw_l["genuine_label"]  # the documented default
+        if scl == "genuine" and (case.get("_seed", 0) // 2 + len(repr(glab))) % 2:
+            del kw_l["score_class"]  # "genuine" is the documented default
+        if ep == 0 and en == 0 and case.get("_seed", 0) % 3 == 1:
+            del kw_l["nb_easy_genuines"], kw_l["nb_easy_frauds"]
+        fl = FraudScores.from_labels(lab_in, sc_all[perm] if len(perm) else sc_all, **kw_l)
+        C(fl == ref and isinstance(fl, FraudScores), "from_labels does not split by the genuine label", "fraud-from-labels", genuine_label=repr(glab), labels_dtype=str(labels.dtype),
+          got_sizes=[len(fl.genuines), len(fl.frauds)], want_sizes=[len(g), len(f)])
     # setters keep the alias
     fs2 = FraudScores(genuines=g, frauds=f, score_class=scl)
     newg = np.sort(np.asarray(g, float))[::2]
